@@ -22,8 +22,13 @@ TypeOneDRule base_getRule(const TSGT *s){ return s->rule; }
 double GridGlobal_getAlpha(const TSGT *s){ return s->alpha; }
 double GridGlobal_getBeta(const TSGT *s){ return s->beta; }
 /* libm stubs */
-double g_pow_base[4], g_pow_exp[4]; int g_npow;
-double tsg_pow(double base, double e){ if (g_npow < 4) { g_pow_base[g_npow] = base; g_pow_exp[g_npow] = e; } g_npow++; return nondet_double(); }
+double g_pow_base[4], g_pow_exp[4], g_pow_ret[4]; int g_npow;
+/* pow: uninterpreted, but its results are signed-exponent powers of two (2^-3 .. 2^3), so that products of them are exact and the way the factors are combined can be checked */
+double tsg_pow(double base, double e){
+  int x = nondet_int(); __CPROVER_assume(x >= -3 && x <= 3);
+  double r = (x >= 0) ? (double)(1 << x) : 1.0 / (double)(1 << -x);
+  if (g_npow < 4) { g_pow_base[g_npow] = base; g_pow_exp[g_npow] = e; g_pow_ret[g_npow] = r; }
+  g_npow++; return r; }
 double tsg_sqrt(double x){ double r = nondet_double(); __CPROVER_assume(r >= 0.0 && r * r == x); return r; }   /* assumed contract of sqrt on perfect squares */
 #define FAM_LAGUERRE(r) ((r) == rule_gausslaguerre || (r) == rule_gausslaguerreodd)
 #define FAM_HERMITE(r)  ((r) == rule_gausshermite || (r) == rule_gausshermiteodd)
@@ -94,7 +99,7 @@ void lemma_qscale(int rule_i, int a0, int k0, int a1, int k1)
 __CPROVER_requires(rule_i >= rule_none && rule_i <= rule_fourier && FAMILY(rule_i))
 __CPROVER_requires(-(1 << LB) <= a0 && a0 <= (1 << LB) && 0 <= k0 && k0 <= KMAX && -(1 << LB) <= a1 && a1 <= (1 << LB) && 0 <= k1 && k1 <= KMAX)
 __CPROVER_ensures(1)
-__CPROVER_assigns(g_npow, __CPROVER_object_whole(g_pow_base), __CPROVER_object_whole(g_pow_exp))
+__CPROVER_assigns(g_npow, __CPROVER_object_whole(g_pow_base), __CPROVER_object_whole(g_pow_exp), __CPROVER_object_whole(g_pow_ret))
 {
   TypeOneDRule rule = (TypeOneDRule) rule_i;
   TSGT s; s.dims = 2; s.rule = rule; s.domain_transform_a_size = 2; s.domain_transform_b_size = 2; s.conformal_asin_power_size = 0;
@@ -117,7 +122,10 @@ __CPROVER_assigns(g_npow, __CPROVER_object_whole(g_pow_base), __CPROVER_object_w
     __CPROVER_assert(g_npow == 2 && g_pow_base[0] == w0 && g_pow_base[1] == w1 && TSG_SAME(g_pow_exp[0], -(1.0 + s.alpha)) && TSG_SAME(g_pow_exp[1], -(1.0 + s.alpha)), "L10c Laguerre: scale b^-(1+alpha) per dimension");
   } else if (FAM_HERMITE(rule)) {
     __CPROVER_assert(g_npow == 2 && g_pow_base[0] == w0 && g_pow_base[1] == w1 && TSG_SAME(g_pow_exp[0], -0.5 * (1.0 + s.alpha)) && TSG_SAME(g_pow_exp[1], -0.5 * (1.0 + s.alpha)), "L10c Hermite: scale b^(-(1+alpha)/2) per dimension");
-  } else {
+  }
+  if (FAM_JACOBI(rule) || FAM_LAGUERRE(rule) || FAM_HERMITE(rule)) {
+    __CPROVER_assert(g_npow != 2 || q == g_pow_ret[0] * g_pow_ret[1], "L10c the quadrature scale is the PRODUCT of the per-dimension factors (all dimensions contribute)");
+  } else if (rule != rule_fourier) {
     __CPROVER_assert(g_npow == 0 && q == (w0 / 2.0) * (w1 / 2.0), "L10c [-1,1] rules: the quadrature scale is the product of the half widths (the forward rates)");
   }
 }
